@@ -245,6 +245,9 @@ def build_config(config, filename=None):
         # Drop unsupported arguments from config rather than getting a
         # "unsupported keyword" exception
         config = {k: config[k] for k in config if k in supported_args}
+        # The serializers have different default units, do not override them with None
+        if config.get('unit', '') is None:
+            del config['unit']
     return config
 
 
